@@ -68,6 +68,14 @@ def matchDeep (plen : Nat) (pfx : Bytes) (node : Tree) (key : Bytes) (depth : Na
     | some lk => lcp (lk.drop (depth + maxPfx)) (key.drop (depth + maxPfx)) + maxPfx
     | none => m
 
+/-- the full prefix as expandNode reads it: the in-node bytes when they are all there, else `[depth, depth+plen)` of the
+    minimum leaf's key -/
+def fullPrefix (plen : Nat) (pfx : Bytes) (node : Tree) (depth : Nat) : Bytes :=
+  if plen ≤ maxPfx then pfx
+  else match minLeafT node with
+    | some lk => (lk.drop depth).take plen
+    | none => pfx
+
 /-- addChild(c, inplace, child) on a node under construction: `valid = false` puts the leaf in place -/
 def addEntry (s : Option Bytes × Kids) (valid : Bool) (c : UInt8) (t : Tree) (leafKey : Bytes) : Option Bytes × Kids :=
   if valid then
@@ -111,11 +119,7 @@ mutual
       let mis := matchDeep plen pfx (.node plen pfx inp kids) key depth
       if plen > 0 && decide (mis < plen) then
         -- expandNode: a new node4 with the common part; the old node keeps the rest of its prefix
-        let full : Bytes :=
-          if plen ≤ maxPfx then pfx
-          else match minLeafT (.node plen pfx inp kids) with
-            | some lk => (lk.drop depth).take plen
-            | none => pfx
+        let full : Bytes := fullPrefix plen pfx (.node plen pfx inp kids) depth
         let nodeChar := full.getD mis 0
         let rest := plen - mis - 1
         let old : Tree := .node rest ((full.drop (mis + 1)).take (min rest maxPfx)) inp kids
@@ -137,11 +141,15 @@ mutual
       else .cons c t (insertK rest b key d)
 end
 
+def optKey : Option Bytes → List Bytes
+  | some x => [x]
+  | none => []
+
 mutual
   /-- the leaves in the order `baseIter.next` visits them: in-place leaf first, then the children by ascending byte -/
   def keysT : Tree → List Bytes
     | .leaf k => [k]
-    | .node _ _ inp kids => (match inp with | some x => [x] | none => []) ++ keysK kids
+    | .node _ _ inp kids => optKey inp ++ keysK kids
   def keysK : Kids → List Bytes
     | .nil => []
     | .cons _ t rest => keysT t ++ keysK rest
